@@ -39,6 +39,7 @@ struct Section {
 
 struct Shared {
     Resource *res = nullptr;
+    Resource *other = nullptr;             // a second Resource that is only ever read-locked: some requests are issued while holding it
     std::atomic<uint64_t> occ{0};          // writers<<32 | readers
     volatile uint64_t x = 0, y = ~0ULL;    // writers keep y == ~x; anyone inside checks it
     std::atomic<int> go{0};
@@ -55,6 +56,7 @@ struct Totals {
     uint64_t pairsWW = 0, pairsWR = 0, pairsRW = 0, pairsLive = 0, maxQueue = 0;
     uint64_t idleProbes = 0, readerParksJudged = 0, readersNoWriter = 0, rendezvous = 0, rendezvousReaders = 0;
     uint64_t predictedParks = 0, predictedFast = 0, lateArrivalPatterns = 0, lateArrivals = 0;
+    std::atomic<uint64_t> nestedSections{0};
     std::vector<uint64_t> fps;          // fingerprints of non-trivial cases
     std::vector<std::string> samples;
 } T;
@@ -105,7 +107,10 @@ inline void checkData(const char *site) {
 
 // one critical section; body runs between enter and leave
 template<class Body>
-void section(uint8_t type, uint8_t api, Section &s, const char *site, Body &&body) {
+void section(uint8_t type, uint8_t api, Section &s, const char *site, Body &&body, bool nested = false) {
+    // state kept per thread instead of per Resource would leak from one lock into the other
+    struct Outer { Resource *r; ~Outer() { if (r) r->unlockRead(); } } outer{nested ? g.other : nullptr};
+    if (nested) { g.other->lockRead(); ++T.nestedSections; }
     spy::ThreadRec *me = spy::self();
     s.type = type;
     s.api = api;
@@ -281,7 +286,9 @@ void idleProbe(const char *site) {
 
 void freshResource() {
     delete g.res;
+    delete g.other;
     g.res = new Resource();
+    g.other = new Resource();
     spy::unwatchAll();
     spy::watch(g.res, sizeof(Resource));
     g.occ.store(0);
@@ -334,7 +341,7 @@ void runStress(uint64_t caseIdx, rt::Rng rng) {
             while (!g.go.load(std::memory_order_acquire)) sched_yield();
             for (int k = 0; k < perThread; ++k) {
                 uint8_t type = r.chance(wp) ? W : R;
-                section(type, (uint8_t) r.below(2), h[t][k], "stress", [&] { dwell(r, dwellUs); });
+                section(type, (uint8_t) r.below(2), h[t][k], "stress", [&] { dwell(r, dwellUs); }, r.chance(100));
                 if (r.chance(200)) dwell(r, dwellUs);
                 spy::noteProgress();
             }
@@ -483,7 +490,7 @@ void runPattern(uint64_t caseIdx, rt::Rng rng) {
                 }
                 dwell(r, 120);
             }
-        });
+        }, i != 0 && r.chance(250));
         state[i].store(3, std::memory_order_release);
     };
 
@@ -597,7 +604,7 @@ int main(int argc, char **argv) {
                    .kv("readersNoWriter", T.readersNoWriter).kv("readerParksJudged", T.readerParksJudged)
                    .kv("rendezvous", T.rendezvous).kv("rendezvousReaders", T.rendezvousReaders)
                    .kv("predictedParks", T.predictedParks).kv("predictedFast", T.predictedFast)
-                   .kv("lateArrivalPatterns", T.lateArrivalPatterns).kv("lateArrivals", T.lateArrivals)
+                   .kv("lateArrivalPatterns", T.lateArrivalPatterns).kv("lateArrivals", T.lateArrivals).kv("sectionsNestedInOtherResource", T.nestedSections.load())
                    .kv("nontrivial", (uint64_t) T.fps.size())
                    .kv("delaysAfterWake", k.afterWake.load()).kv("delaysCondEntry", k.condEntry.load())
                    .kv("delaysOther", k.beforeLock.load() + k.afterUnlock.load() + k.beforeNotify.load() + k.threadStart.load())
